@@ -36,6 +36,7 @@ func TestVerifScopeReplay(t *testing.T) {
 	if base, err = filepath.EvalSymlinks(base); err != nil {
 		t.Fatal(err)
 	}
+
 	cwd, _ := os.Getwd()
 	defer os.Chdir(cwd)
 	saved := *ignorePaths
@@ -63,7 +64,7 @@ func TestVerifScopeReplay(t *testing.T) {
 		if k := key(v); k != cur {
 			cur = k
 			ntree++
-			root = filepath.Join(base, fmt.Sprintf("t%d", ntree), "R")
+			root = filepath.Join(base, fmt.Sprintf("t%d", ntree), "RVS")
 			os.MkdirAll(root, 0755)
 			for _, f := range v.Tree {
 				p := filepath.Join(append([]string{root}, f...)...)
